@@ -5,6 +5,7 @@
 package main
 
 import (
+	"crypto/ed25519"
 	"encoding/base64"
 	"encoding/json"
 	"fmt"
@@ -15,6 +16,7 @@ import (
 	"sync"
 	"time"
 
+	"github.com/btcsuite/btcutil/base58"
 	"github.com/google/uuid"
 
 	dxclient "github.com/hyperledger/aries-framework-go/pkg/client/didexchange"
@@ -24,6 +26,8 @@ import (
 	"github.com/hyperledger/aries-framework-go/pkg/common/model"
 	"github.com/hyperledger/aries-framework-go/pkg/didcomm/common/service"
 	"github.com/hyperledger/aries-framework-go/pkg/doc/did"
+	"github.com/hyperledger/aries-framework-go/pkg/kms"
+	"github.com/hyperledger/aries-framework-go/pkg/vdr/fingerprint"
 	spilog "github.com/hyperledger/aries-framework-go/spi/log"
 
 	"verifharness/hx"
@@ -37,7 +41,11 @@ const settle = 40 * time.Second
 type Exch struct {
 	Inviter string `json:"inviter"`
 	Invitee string `json:"invitee"`
-	Style   string `json:"style"` // dx | oob | legacy
+	Style   string `json:"style"` // dx | oob | implicit | legacy
+	// Forge (legacy only): while the inviter's genuine response is in flight, mallory, who has learned the thread id,
+	// delivers a response of her own making on that thread first: "key" = signed with her own key and saying so,
+	// "liar" = naming the invitation key as signer.
+	Forge string `json:"forge,omitempty"`
 }
 
 // Attack is one adversarial act of mallory.
@@ -64,6 +72,7 @@ type exchRun struct {
 	accept      func() (string, error)
 	proto       string
 	done        bool
+	forged      bool
 	x, y        *Rec // inviter / invitee record once completed
 	resX, resY  string
 }
@@ -166,7 +175,7 @@ func (r *runner) post(a *Agent, p *preState, input func(cid int, my string) stri
 
 		m := r.w.cMsg(pk)
 		if m == "" {
-			r.w.coq = false
+			r.w.noCoq("a message the agent sent could not be opened by the scheduler (packed for key ids nobody holds): " + pk.Type)
 		}
 
 		ks := make([]int, len(pk.DestKeys))
@@ -240,7 +249,7 @@ func (r *runner) deliver(p *Packet) {
 	m := w.cMsg(p)
 	if m == "" {
 		if w.tr[dst.Name] != nil {
-			w.coq = false
+			w.noCoq("inbound message outside the model's vocabulary: " + p.Type)
 		}
 
 		return
@@ -253,6 +262,18 @@ func (r *runner) deliver(p *Packet) {
 
 	if from := plainStr(p, "from"); strings.Contains(from, "initialState=") {
 		if d := initialStateDoc(from); d != nil {
+			docID = d.ID
+		}
+	}
+
+	if p.Type == lcRequest {
+		if _, d := legacyConn(p.Plain["connection"]); d != nil {
+			docID = d.ID
+		}
+	}
+
+	if p.Type == lcResponse {
+		if _, d, _ := legacySigned(p.Plain["connection~sig"]); d != nil {
 			docID = d.ID
 		}
 	}
@@ -279,6 +300,21 @@ func (r *runner) drain(local []func()) {
 			p := r.w.net.Take(func(*Packet) bool { i++; return i-1 == idx }, time.Second)
 
 			if p != nil {
+				r.w.net.Peek(p)
+
+				if p.Type == lcResponse {
+					for _, e := range r.exs {
+						if e.Forge != "" && !e.forged && e.Invitee != "mallory" && r.w.agentAt(p.To) == r.w.agent(e.Invitee) &&
+							r.w.agent(e.Invitee).Record(e.inviteeConn) != nil && r.w.agent(e.Invitee).Record(e.inviteeConn).ThreadID == p.Thread {
+							e.forged = true
+
+							if err := r.forgeLegacyResponse(e, p); err != nil {
+								r.res.obs["forge-skipped"] = err.Error()
+							}
+						}
+					}
+				}
+
 				r.deliver(p)
 			}
 		}
@@ -321,11 +357,25 @@ func (r *runner) setup(e *exchRun) error {
 			e.invKey = svc.RecipientKeys[0]
 			e.invEP, _ = svc.ServiceEndpoint.URI()
 		} else {
-			r.w.coq = false
+			r.w.noCoq("main.go#3")
 		}
 
 		r.post(x, pre, func(int, string) string {
 			return fmt.Sprintf("ICreateInv %d %d", r.w.inv(inv.ID), r.w.key(e.invKey))
+		}, false, "")
+	case "implicit": // no invitation message: the invitee starts from the inviter's public DID
+		id := "did:c10pub:" + e.Inviter + base58ish(r.rng, 8)
+
+		doc, err := x.PublishDID(id)
+		if err != nil {
+			return err
+		}
+
+		e.invID, e.proto = id, "DX"
+		e.invKey, e.invEP = doc.Service[0].RecipientKeys[0], x.Endpoint
+		e.accept = func() (string, error) { return y.dx.CreateImplicitInvitation(e.Inviter, id) }
+		r.post(x, pre, func(int, string) string {
+			return fmt.Sprintf("ICreateInv %d %d", r.w.inv(id), r.w.key(e.invKey))
 		}, false, "")
 	case "legacy":
 		inv, err := x.lc.CreateInvitation(e.Inviter)
@@ -335,7 +385,10 @@ func (r *runner) setup(e *exchRun) error {
 
 		e.invID, e.proto = inv.ID, "LC"
 		e.accept = func() (string, error) { return y.lc.HandleInvitation(inv) }
-		r.w.coq = false // the legacy flow is checked by the direct oracle only
+		e.invKey, e.invEP = inv.RecipientKeys[0], inv.ServiceEndpoint
+		r.post(x, pre, func(int, string) string {
+			return fmt.Sprintf("ICreateInv %d %d", r.w.inv(inv.ID), r.w.key(inv.RecipientKeys[0]))
+		}, false, "")
 	default:
 		return fmt.Errorf("unknown style %q", e.Style)
 	}
@@ -350,7 +403,7 @@ func (r *runner) acceptStep(e *exchRun) {
 	c, err := e.accept()
 	if err != nil {
 		r.res.obs["accept-error:"+e.Invitee] = err.Error()
-		r.w.coq = false
+		r.w.noCoq("main.go#4")
 
 		return
 	}
@@ -406,6 +459,11 @@ func (r *runner) evaluate(e *exchRun, when string) {
 
 	if n > 1 {
 		r.res.failf("crosstalk", "%s: %d records of %s share thread %s", when, n, x.Name, yr.ThreadID)
+	}
+
+	if xr != nil && xr.MyDID != "" && xr.MyDID != yr.TheirDID {
+		r.res.failf("mutual-mismatch", "%s: %s completed thread %s with peer %s, but %s runs that thread as %s", when, y.Name, yr.ThreadID,
+			yr.TheirDID, x.Name, xr.MyDID)
 	}
 
 	if xr == nil || xr.State != "completed" {
@@ -595,6 +653,9 @@ func runCase(spec *Spec, kind string, idx int) *hx.Record {
 	}
 
 	res.obs["completed"], res.obs["states"], res.obs["packets"] = completed, states, len(w.net.Log)
+	if !w.coq {
+		res.obs["direct-oracle-only"] = w.coqWhy
+	}
 	rec.Observed = res.obs
 	rec.Class = fmt.Sprintf("%v|%v|%v|%d", spec.Cfg, spec.Exch, spec.Attacks, completed)
 	rec.Dist = []string{"cfg:" + spec.Cfg.Profile + "/" + spec.Cfg.KeyType + "/" + spec.Cfg.KAType, fmt.Sprintf("exchanges:%d", len(spec.Exch)),
@@ -808,6 +869,58 @@ func (r *runner) attack(at Attack) error {
 		return send(request(uuid.New().String(), uuid.New().String(), victimDID, rename(victimDID)), inv)
 	case "req-docid-mismatch": // the request names a new DID, the attached document names bob's
 		return send(request(uuid.New().String(), inv.ID, fakeDID, rename(victimDID)), inv)
+	case "req-repoint-keys": // bob's DID and bob's endpoint, mallory's keys
+		ep := x.Resolve(victimDID).Endpoint
+
+		return send(request(uuid.New().String(), inv.ID, victimDID, strings.ReplaceAll(rename(victimDID), w.M.Endpoint, ep)), inv)
+	case "req-repoint-endpoint": // bob's own document with mallory's endpoint
+		peerDoc := r.capturedDoc(victimDID)
+		if peerDoc == "" {
+			return fmt.Errorf("no captured document of the peer")
+		}
+
+		ep := x.Resolve(victimDID).Endpoint
+
+		return send(request(uuid.New().String(), inv.ID, victimDID, strings.ReplaceAll(peerDoc, ep, w.M.Endpoint)), inv)
+	case "req-docid-fresh": // request and attached document name two different new DIDs; then the exchange is completed
+		th := uuid.New().String()
+		fake2 := "did:peer:1zQm" + base58ish(r.rng, 44)
+
+		if e := send(request(th, inv.ID, fakeDID, rename(fake2)), inv); e != nil {
+			return e
+		}
+
+		r.drain(nil)
+
+		return send(map[string]interface{}{"@type": dxComplete, "@id": uuid.New().String(),
+			"~thread": map[string]interface{}{"thid": th, "pthid": inv.ID}}, inv)
+	case "lc-req-repoint": // the same through the legacy connection protocol
+		pre := r.pre(x)
+
+		linv, e := x.lc.CreateInvitation("open-legacy")
+		if e != nil {
+			return e
+		}
+
+		r.post(x, pre, func(int, string) string {
+			return fmt.Sprintf("ICreateInv %d %d", w.inv(linv.ID), w.key(linv.RecipientKeys[0]))
+		}, false, "")
+
+		pd, e := did.ParseDocument([]byte(rename(victimDID)))
+		if e != nil {
+			return e
+		}
+
+		legacy, e := pd.ToLegacyRawDoc()
+		if e != nil {
+			return e
+		}
+
+		m := map[string]interface{}{"@type": lcRequest, "@id": uuid.New().String(), "label": "mallory",
+			"~thread": map[string]interface{}{"pthid": linv.ID}, "connection": map[string]interface{}{"DID": victimDID, "DIDDoc": legacy}}
+
+		return w.M.ctx.OutboundDispatcher().Send(m, sender, &service.Destination{
+			RecipientKeys: linv.RecipientKeys, ServiceEndpoint: model.NewDIDCommV1Endpoint(x.Endpoint)})
 	case "req-nodoc":
 		return send(request(uuid.New().String(), inv.ID, victimDID, ""), inv)
 	case "req-keysteal": // a new DID whose document lists bob's key next to mallory's; then the exchange is completed
@@ -899,6 +1012,109 @@ func (r *runner) attack(at Attack) error {
 	return fmt.Errorf("unknown attack %q", at.Kind)
 }
 
+// forgeLegacyResponse sends, and delivers before the genuine response p, a connection response made by mallory on
+// the same thread.
+func (r *runner) forgeLegacyResponse(e *exchRun, genuine *Packet) error {
+	w := r.w
+	y := w.agent(e.Invitee)
+
+	_, gdoc, _ := legacySigned(genuine.Plain["connection~sig"])
+	if gdoc == nil {
+		return fmt.Errorf("genuine response unreadable")
+	}
+
+	// the invitee's keys, from its request
+	var yKeys []string
+
+	for _, p := range w.net.Log {
+		if p.Type == lcRequest && p.Thread == genuine.Thread && p.Plain != nil {
+			if _, d := legacyConn(p.Plain["connection"]); d != nil {
+				if dest, err := service.CreateDestination(d); err == nil {
+					yKeys = dest.RecipientKeys
+				}
+			}
+		}
+	}
+
+	if len(yKeys) == 0 {
+		return fmt.Errorf("invitee keys unknown")
+	}
+
+	fake := "did:peer:1zQm" + base58ish(r.rng, 44)
+
+	raw, err := gdoc.JSONBytes()
+	if err != nil {
+		return err
+	}
+
+	fd, err := did.ParseDocument([]byte(strings.ReplaceAll(strings.ReplaceAll(string(raw), gdoc.ID, fake), w.agent(e.Inviter).Endpoint, w.M.Endpoint)))
+	if err != nil {
+		return err
+	}
+
+	legacy, err := fd.ToLegacyRawDoc()
+	if err != nil {
+		return err
+	}
+
+	conn, err := json.Marshal(map[string]interface{}{"DID": fake, "DIDDoc": legacy})
+	if err != nil {
+		return err
+	}
+
+	seed := r.rng.Bytes(ed25519.SeedSize)
+	priv := ed25519.NewKeyFromSeed(seed)
+	data := append([]byte{0, 0, 0, 0, 0x65, 0, 0, 0}, conn...)
+	signer := base58.Encode(priv.Public().(ed25519.PublicKey))
+
+	if e.Forge == "liar" {
+		signer = e.invKey
+	}
+
+	msg := map[string]interface{}{"@type": lcResponse, "@id": uuid.New().String(), "~thread": map[string]interface{}{"thid": genuine.Thread},
+		"connection~sig": map[string]interface{}{"@type": "https://didcomm.org/signature/1.0/ed25519Sha512_single",
+			"sig_data": base64.URLEncoding.EncodeToString(data), "signature": base64.URLEncoding.EncodeToString(ed25519.Sign(priv, data)),
+			"signer": signer}}
+
+	_, pub, err := w.M.ctx.KMS().CreateAndExportPubKeyBytes(kms.ED25519Type)
+	if err != nil {
+		return err
+	}
+
+	sender, _ := fingerprint.CreateDIDKey(pub)
+
+	if err := w.M.ctx.OutboundDispatcher().Send(msg, sender, &service.Destination{
+		RecipientKeys: yKeys, ServiceEndpoint: model.NewDIDCommV1Endpoint(y.Endpoint)}); err != nil {
+		return err
+	}
+
+	if fp := w.net.Take(func(p *Packet) bool { return p.From == "mallory" && p.To == y.Endpoint }, 5*time.Second); fp != nil {
+		r.deliver(fp)
+	}
+
+	return nil
+}
+
+// capturedDoc returns the DID document (as sent in the did_doc~attach of a request/response) of a DID, as a worst-case
+// observer would have it.
+func (r *runner) capturedDoc(didv string) string {
+	for _, p := range r.w.net.Log {
+		if p.Plain != nil && plainStr(p, "did") == didv {
+			if att, ok := p.Plain["did_doc~attach"].(map[string]interface{}); ok {
+				if data, ok := att["data"].(map[string]interface{}); ok {
+					if b64, ok := data["base64"].(string); ok {
+						if raw, err := base64.StdEncoding.DecodeString(b64); err == nil {
+							return string(raw)
+						}
+					}
+				}
+			}
+		}
+	}
+
+	return ""
+}
+
 func base58ish(r *hx.Rng, n int) string {
 	const al = "123456789ABCDEFGHJKLMNPQRSTUVWXYZabcdefghijkmnopqrstuvwxyz"
 	b := make([]byte, n)
@@ -911,7 +1127,8 @@ func base58ish(r *hx.Rng, n int) string {
 
 // ---------- generators ----------
 
-var attackKinds = []string{"req-repoint", "req-repoint-badpthid", "req-docid-mismatch", "req-nodoc", "req-keysteal", "init-repoint",
+var attackKinds = []string{"req-repoint", "req-repoint-badpthid", "req-repoint-keys", "req-repoint-endpoint", "req-docid-mismatch",
+	"req-docid-fresh", "lc-req-repoint", "req-nodoc", "req-keysteal", "init-repoint",
 	"complete-replay", "req-same-thread", "resp-forge", "ping-unknown", "owner-reuse"}
 
 func main() {
@@ -972,12 +1189,20 @@ func main() {
 
 	rng := hx.NewRng(args.Seed)
 	cfgs := configs()
-	styles := []string{"dx", "oob", "legacy"}
+	styles := []string{"dx", "oob", "implicit", "legacy"}
 	withM := func(target string) Exch { return Exch{Inviter: target, Invitee: "mallory", Style: "dx"} }
 
 	// the configuration matrix x invitation style x k = 1..3 concurrent exchanges
+	// the stub public DID carries an Ed25519 key: the implicit style is exercised with the configurations whose
+	// agents use Ed25519 keys (with P-256 keys the invitee's implicit flow ends in a logged error, no state at all)
+	implicitOK := func(c Config) bool { return c.KeyType == "" || c.KeyType == "ED25519" }
+
 	for ci, cfg := range cfgs {
 		for _, st := range styles {
+			if st == "implicit" && !implicitOK(cfg) {
+				continue
+			}
+
 			for k := 1; k <= 3; k++ {
 				if args.Tier == "quick" && ci > 0 && k == 2 {
 					continue
@@ -1009,10 +1234,22 @@ func main() {
 		}
 	}
 
+	// a forged legacy response overtaking the genuine one (the signature by the invitation key is what tells them apart)
+	for _, f := range []string{"key", "liar"} {
+		for _, other := range []bool{false, true} {
+			s := &Spec{Cfg: cfgs[0], Seed: rng.U64(), Exch: []Exch{{Inviter: "alice", Invitee: "bob", Style: "legacy", Forge: f}}}
+			if other {
+				s.Exch = append(s.Exch, Exch{Inviter: "bob", Invitee: "alice", Style: "legacy"})
+			}
+
+			add("forge", s)
+		}
+	}
+
 	// seeded mixtures: several concurrent exchanges (both directions, mallory's own among them), several attacks
-	nRandom := 60
+	nRandom := 300
 	if args.Tier == "thorough" {
-		nRandom = 600
+		nRandom = 3000
 	}
 
 	for i := 0; i < nRandom; i++ {
@@ -1021,6 +1258,10 @@ func main() {
 
 		for j := 0; j < k; j++ {
 			e := Exch{Inviter: "alice", Invitee: "bob", Style: styles[rng.Intn(len(styles))]}
+			if e.Style == "implicit" && !implicitOK(s.Cfg) {
+				e.Style = "dx"
+			}
+
 			if rng.Intn(3) == 0 {
 				e.Inviter, e.Invitee = "bob", "alice"
 			}
